@@ -46,6 +46,14 @@ class Command(SerializableMixin, DictableMixin):
         self.argument = match.group(2).decode('utf-8', errors='surrogateescape')
 
     def to_bytes(self):
+        # A command is exactly one line. The argument may come from a
+        # percent-decoded URL path or login, so it must not be able to end
+        # the line and start another command.
+        if any(char in self.argument for char in '\r\n\0'):
+            raise ProtocolError(
+                'Command argument contains a line break or NUL: {0}'
+                .format(ascii(self.argument)))
+
         return '{0} {1}\r\n'.format(self.name, self.argument).encode(
             'utf-8', errors='surrogateescape')
 
